@@ -97,10 +97,13 @@ func newKey(kind, label string) crypto.PrivateKeyI {
 	panic("kind " + kind)
 }
 
+// multiShape is the (n, threshold) of the multisig accounts of this process' current case.
+var multiShape = [2]int{3, 2}
+
 func newParty(kind, label string) *party {
 	if kind == kMulti {
-		m := &multiAcct{threshold: 2}
-		for i := 0; i < 3; i++ {
+		m := &multiAcct{threshold: uint32(multiShape[1])}
+		for i := 0; i < multiShape[0]; i++ {
 			m.keys = append(m.keys, newKey(kBLS, fmt.Sprintf("%s/m%d", label, i)))
 		}
 		return &party{name: label, kind: kind, multi: m}
